@@ -145,7 +145,7 @@ func programs() []*Program {
 		},
 		Cfg: func() *Config { return baseConfig("E1", "E2") }})
 
-	add(&Program{Name: "P-embed-x", Quick: false, Families: []string{"rt"},
+	add(&Program{Name: "P-embed-x", Quick: true,
 		File: func() *FileSpec {
 			ex1 := msg("EmbS", nil, fld("XStr", TString), fld("XNum", TInt64))
 			ex2 := msg("EmbO", nil, mfld("XSub", "Leaf"), fld("XList", TString).rep(), mapfld("XM", fld("v", TString)))
